@@ -345,6 +345,12 @@ class PVLParser(object):
                     try:
                         self.parse_end_aggregation(begin, block_name, tokens)
                         break
+                    except StopIteration:
+                        raise ParseError(
+                            "Ran out of tokens before finding the "
+                            "End-Aggregation-Statement that matches "
+                            f'"{begin} = {block_name}".'
+                        )
                     except LexerError:
                         raise
                     except ValueError as ve:
@@ -418,7 +424,13 @@ class PVLParser(object):
                 ValueError, f'Expecting an equals sign after "{begin}" '
             )
 
-        block_name = next(tokens)
+        try:
+            block_name = next(tokens)
+        except StopIteration:
+            raise ParseError(
+                f'Ran out of tokens to parse after "{begin} =", expecting '
+                "a Block-Name."
+            )
         if not block_name.is_parameter_name():
             tokens.throw(
                 ValueError,
